@@ -2269,7 +2269,21 @@ func init() {
 				}
 				return p
 			}
-			return genRelayPlan(seed, tier, id)
+			p := genRelayPlan(seed, tier, id)
+			if id == "C01" && (seed^(seed>>13))%4 == 0 && p.Variant == "" {
+				// what is relayed for messages of dialogs that are bound to a backend (the proxy looks into more of their
+				// headers: Expires, Subscription-State) is held to the same standard: call and subscription snippets
+				g := newGen(seed ^ 0xc01d)
+				for li, l := range p.Cfg.Listens {
+					if len(l.Backends) < 1 || l.UDP == 0 {
+						continue
+					}
+					p.Ops = append(p.Ops, genDialogSnippet(g, &p.Cfg, li, g.intn(len(l.Backends)))...)
+					p.Ops = append(p.Ops, genSubscribeSnippet(g, &p.Cfg, li, g.intn(len(l.Backends)))...)
+					break
+				}
+			}
+			return p
 		}, func(t *testing.T, p *Plan) *Result {
 			if p.Variant == "dialog-foreign-ruri" || p.Variant == "membership" {
 				return execSticky(t, p)
